@@ -71,10 +71,20 @@ Section Whole.
     - exact Hrun.
   Qed.
 
-  Hypothesis classes : forall l, l <> [] -> macro_free l = true -> lexeme_sim l.
+  (** the texts considered: a suffix-closed condition (macro-free, and whatever else the proved classes need) *)
+  Variable P : list char -> bool.
+  Hypothesis P_tail : forall c r, P (c :: r) = true -> P r = true.
+  Hypothesis classes : forall l, l <> [] -> P l = true -> lexeme_sim l.
+
+  Lemma P_skipn k : forall l, P l = true -> P (skipn_N k l) = true.
+  Proof.
+    induction k as [|k IH]; intros l H; [exact H|]. destruct l as [|c r]; [exact H|].
+    cbn [skipn_N]. apply IH. exact (P_tail c r H).
+  Qed.
+
 
   Lemma loop_sim : forall m s rs f fr last acc_t acc_e,
-    List.length (c_rest (s_cur s)) = m -> OC text s rs -> macro_free (c_rest (s_cur s)) = true ->
+    List.length (c_rest (s_cur s)) = m -> OC text s rs -> P (c_rest (s_cur s)) = true ->
     (m < F)%nat -> s_iters s + 2 * N.of_nat m <= limit -> (2 * m < f)%nat -> (m < fr)%nat ->
     map (tv bb) (w_toks (s_buf s)) = map rv acc_t -> map (ev bb) (s_errs s) = map rve acc_e ->
     exists s_end rs_end T E,
@@ -113,7 +123,7 @@ Section Whole.
         lia. }
       destruct (IH m' Hm' s' rs' (f - k)%nat fr last' (rev_append ts acc_t) (rev_append es acc_e) eq_refl HOC')
         as (s_end & rs_end & T & E & Hrun & Hrf & HOCe & Hreste & Hte & Hee & Habe).
-      + rewrite Hrest'. apply macro_free_skipn. exact Hmf.
+      + rewrite Hrest'. apply P_skipn. exact Hmf.
       + lia.
       + rewrite Hit'. lia.
       + lia.
@@ -144,19 +154,20 @@ Section Whole.
   Qed.
 End Whole.
 
-Theorem lex_text_is_reflex text bb bc msep :
-  (forall l, l <> [] -> macro_free l = true ->
+Theorem lex_text_is_reflex text bb bc msep (P : list char -> bool) :
+  (forall c r, P (c :: r) = true -> P r = true) ->
+  (forall l, l <> [] -> P l = true ->
      lexeme_sim text bb (S (List.length text)) msep (8 * (blen text + bb) + 64) l) ->
-  macro_free text = true ->
+  P text = true ->
   let r := lex_text (mkCfg false msep) bb bc text in
   let '(T, E, rs) := reflex_loop (S (List.length text)) text bb rs0 [] [] in
   lr_outcome r = None /\ s_aborted (lr_state r) = false /\
   map tv0 (b_toks (lr_buffer r)) = map rv T /\ map ev0 (lr_errors r) = map rve E /\
   b_lit (lr_buffer r) = rev (rs_lit rs).
 Proof.
-  intros classes Hmf. cbv zeta. unfold lex_text. cbn [dbg Base.msep].
+  intros Ptail classes Hmf. cbv zeta. unfold lex_text. cbn [dbg Base.msep].
   set (n := List.length text).
-  destruct (loop_sim text bb (S n) msep (8 * (blen text + bb) + 64) classes n (init text) rs0
+  destruct (loop_sim text bb (S n) msep (8 * (blen text + bb) + 64) P Ptail classes n (init text) rs0
                      (8 * (4 * n) + 64 + 2 + 24)%nat (S n) (blen text + bb, [MDefault]) [] []
                      eq_refl (OC_init text eq_refl) Hmf ltac:(lia)) as (s1 & rs1 & T & E & Hrun & Hrf & HOC1 & Hrest1 & Ht1 & He1 & Hab1).
   - cbn [init s_iters]. assert (N.of_nat n <= blen text); [|lia].
